@@ -50,7 +50,14 @@ void print_bool(Z z)
     static_assert(std::is_same_v<Z, bool>);
     putchar(z ? '1' : '0');
 }
-inline void print_str(std::string const& s) { fputs(s.c_str(), stdout); }
+// text results: anything but a digit or '-' (possible when the digit arithmetic itself is wrong) is escaped as ?hh
+inline void print_str(std::string const& s)
+{
+    for (char ch : s) {
+        if ((ch >= '0' && ch <= '9') || ch == '-') putchar(ch);
+        else printf("?%02x", unsigned(static_cast<unsigned char>(ch)));
+    }
+}
 
 ////////////////////////////////////////////////////////////////////////////////
 // operand generation: limb patterns {0, ~0, 1, 1<<k, random}
@@ -384,4 +391,68 @@ void go(Rng& rng)
         from_int<W, vh::I>(rng);
         from_int<W, vh::U>(rng);
     }
+}
+
+// Instantiations with >= 129 limbs: operator* runs eval_multiply_kara_n_by_n_to_2n.  Carries and borrows of the
+// Karatsuba recombination only fire on dense operands, so the operands are full-width random limbs, all-ones,
+// 0xFE.., 0xF0.., 0xCC.. runs over the whole width, the low half, the low three quarters, and a few sparse ones.
+template<class W>
+void go_kara(Rng& rng)
+{
+    using I = WI<W>;
+    Gen<W> g{rng};
+    int const sc = scale_from_env();
+    unsigned long long const m = Gen<W>::mask;
+    std::vector<LV> vs;
+    auto run = [&](unsigned long long pat, int limbs) {
+        LV l = g.zero();
+        for (int i = 0; i < limbs && i < I::n; ++i) l[std::size_t(i)] = pat & m;
+        vs.push_back(l);
+    };
+    unsigned long long const fe = 0xfefefefefefefefeull, f0 = 0xf0f0f0f0f0f0f0f0ull, cc = 0xccccccccccccccccull;
+    run(m, I::n);
+    run(fe, I::n);
+    run(fe, I::n / 2);
+    run(f0, I::n / 2);
+    run(cc, I::n / 2);
+    run(cc, 3 * I::n / 4);
+    run(fe, I::n / 4);
+    run(m, I::n / 2 + 1);
+    run(1, 1);
+    { LV l = g.zero(); l[std::size_t(I::n / 4)] = 1; vs.push_back(l); }          // one limb inside the lowest quarter
+    { LV l = g.zero(); l[std::size_t(I::n / 4 - 1)] = m; vs.push_back(l); }      // top limb of the lowest quarter
+    { LV l(std::size_t(I::n), m); l[0] = 1; l[std::size_t(I::n - 1)] = m >> 1; vs.push_back(l); }
+    for (int i = 0; i < 10 * sc; ++i) {
+        LV l = g.zero();
+        for (auto& x : l) x = rng.next() & m;
+        vs.push_back(l);
+    }
+    for (int i = 0; i < 2 * sc; ++i) {  // equal halves / equal quarters: the |a1-a0| = 0 and sign branches
+        LV l = g.zero();
+        int h = I::n / 2;
+        for (int k = 0; k < h; ++k) l[std::size_t(k)] = l[std::size_t(k + h)] = rng.next() & m;
+        if (i & 1) l[std::size_t(rng.below(I::n))] ^= 1;
+        vs.push_back(l);
+    }
+    for (int i = 0; i < 2 * sc; ++i) vs.push_back(g.value());
+    std::vector<W> ws;
+    for (auto const& l : vs) ws.push_back(mkw<W>(l));
+    for (W const& a : ws)
+        for (W const& b : ws) bin_mul(a, b);
+    limits<W>();
+    // cnl::to_chars multiplies (value - quotient * 10): goes through the same routine
+    using L = std::numeric_limits<W>;
+    // (one full-width value costs the driver ~600 Karatsuba products: a dense random one, a quarter-width one, -1, 1)
+    if constexpr (I::is_signed)
+        for (std::size_t i : {std::size_t(12), std::size_t(6), std::size_t(0), std::size_t(8)}) {
+            W const& a = ws[i];
+            if (!(a < -L::max()) && !(a > L::max())) {
+                printf("C10 chars %s ", tn<W>().c_str());
+                prhex(a);
+                fputs(" => ", stdout);
+                alarm(60);
+                VH_RUN(([&] { auto r = cnl::to_chars_static(a); return std::string(r.chars.data(), std::size_t(r.length)); }()), print_str)
+                alarm(0);
+            }
+        }
 }
